@@ -83,7 +83,7 @@ example : CallSite.LLVMSpec.calleeSig (Types.tyString (.int 32)) (.cons (.ptr (.
 
 /-- a constructed function (any well-formed value of the function model) prints text that the parser reads back as that very function: the
     printed assembly is accepted and faithful -/
-theorem core3_constructed_prints_faithfully (useHex : Int → Bool) (f : Core3.Func) (h : Core3.wf f = true) :
-    Core3.parse (Core3.printFunc useHex f) = some f := C01.core3_roundtrip useHex f h
+theorem core3_constructed_prints_faithfully (useHex : Int → Bool) (f : Core3.Func) (h : Core3.wf f = true) (hmd : Core3.mdWF useHex f = true) :
+    Core3.parse (Core3.printFunc useHex f) = some f := C01.core3_roundtrip useHex f h hmd
 
 end Llir.Props.C03
